@@ -41,6 +41,9 @@ pub struct Pattern {
 	/// 0 calls the delegate once, 1 calls nothing, 2 calls the delegate twice, 3 calls the delegate and another method, 4 delegate lives in the super class
 	pub body: u8,
 	pub same_name: bool,
+	/// call the delegate an earlier pattern created for a bridge in *another* class (two bridges, one delegate)
+	#[serde(default)]
+	pub share: bool,
 }
 
 #[derive(Clone, Debug, Serialize, Deserialize)]
@@ -54,9 +57,9 @@ pub struct Case {
 fn pattern() -> impl Strategy<Value = Pattern> {
 	(
 		(0usize..4, proptest::collection::vec(0u8..TYPES.len() as u8, 0..3), proptest::option::of(0u8..TYPES.len() as u8), proptest::collection::vec(prop_oneof![3 => Just(0u8), 2 => Just(1u8), 2 => Just(2u8), 1 => Just(3u8), 1 => Just(4u8), 2 => Just(5u8)], 3)),
-		(prop_oneof![3 => Just(0u8), 2 => Just(1u8), 2 => Just(2u8), 1 => Just(3u8), 2 => Just(5u8), 1 => Just(6u8)], prop_oneof![9 => Just(false), 1 => Just(true)], prop_oneof![5 => Just(true), 1 => Just(false)], any::<bool>(), prop_oneof![6 => Just(0u8), 1 => 1u8..4], prop_oneof![5 => Just(0u8), 1 => 1u8..5], any::<bool>()),
+		(prop_oneof![3 => Just(0u8), 2 => Just(1u8), 2 => Just(2u8), 1 => Just(3u8), 2 => Just(5u8), 1 => Just(6u8)], prop_oneof![9 => Just(false), 1 => Just(true)], prop_oneof![5 => Just(true), 1 => Just(false)], any::<bool>(), prop_oneof![6 => Just(0u8), 1 => 1u8..4], prop_oneof![5 => Just(0u8), 1 => 1u8..5], any::<bool>(), prop_oneof![4 => Just(false), 1 => Just(true)]),
 	)
-		.prop_map(|((class, params, ret, widen), (widen_ret, arity_change, synthetic, bridge_flag, blocker, body, same_name))| Pattern { class, params, ret, widen, widen_ret, arity_change, synthetic, bridge_flag, blocker, body, same_name })
+		.prop_map(|((class, params, ret, widen), (widen_ret, arity_change, synthetic, bridge_flag, blocker, body, same_name, share))| Pattern { class, params, ret, widen, widen_ret, arity_change, synthetic, bridge_flag, blocker, body, same_name, share })
 }
 
 fn strategy() -> impl Strategy<Value = Case> {
@@ -165,12 +168,19 @@ fn build(case: &Case) -> (Built, Inheritance) {
 	let mut candidates = Vec::new();
 	let mut used: BTreeSet<(usize, String, String)> = BTreeSet::new();
 	let mut delegates_with_bridge: BTreeSet<(usize, String, String)> = BTreeSet::new();
+	// delegates created so far: (class of the bridge, owner of the delegate, name, parameter types, return type)
+	let mut made: Vec<(usize, usize, String, Vec<String>, Option<String>)> = Vec::new();
 	for (k, p) in case.patterns.iter().enumerate() {
 		let cls = MAIN[p.class].to_string();
-		let params: Vec<String> = p.params.iter().map(|i| TYPES[*i as usize % TYPES.len()].to_string()).collect();
-		let ret = p.ret.map(|i| TYPES[i as usize % TYPES.len()].to_string());
+		let mut params: Vec<String> = p.params.iter().map(|i| TYPES[*i as usize % TYPES.len()].to_string()).collect();
+		let mut ret = p.ret.map(|i| TYPES[i as usize % TYPES.len()].to_string());
+		let mut n_s = format!("spec{k}");
+		// a second bridge, in another class, for a delegate that already has one
+		let shared = if p.share { made.iter().find(|m| m.0 != p.class).cloned() } else { None };
+		if let Some((_, _, name, ps, r)) = &shared {
+			(params, ret, n_s) = (ps.clone(), r.clone(), name.clone());
+		}
 		let d_s = desc_of(&params, &ret);
-		let n_s = format!("spec{k}");
 		let mut bparams: Vec<String> = params.iter().enumerate().map(|(i, t)| widened(t, p.widen.get(i).copied().unwrap_or(0), &inh)).collect();
 		if p.arity_change {
 			bparams.push("I".into());
@@ -187,9 +197,13 @@ fn build(case: &Case) -> (Built, Inheritance) {
 			continue; // would be the same method
 		}
 		// the delegate lives in this class, or (body 4) in the super class
-		let owner_idx = if p.body == 4 { h[p.class].1.as_ref().and_then(|s| MAIN.iter().position(|m| m == s)).unwrap_or(p.class) } else { p.class };
+		let owner_idx = match &shared {
+			Some(m) => m.1,
+			None if p.body == 4 => h[p.class].1.as_ref().and_then(|s| MAIN.iter().position(|m| m == s)).unwrap_or(p.class),
+			None => p.class,
+		};
 		let owner = MAIN[owner_idx].to_string();
-		if !used.insert((owner_idx, n_s.clone(), d_s.clone())) || !used.insert((p.class, n_b.clone(), d_b.clone())) {
+		if (shared.is_none() && !used.insert((owner_idx, n_s.clone(), d_s.clone()))) || !used.insert((p.class, n_b.clone(), d_b.clone())) {
 			continue;
 		}
 		// at most one bridge per delegate and class
@@ -197,7 +211,10 @@ fn build(case: &Case) -> (Built, Inheritance) {
 			continue;
 		}
 		let ret_insn = Insn::Simple(177);
-		models[owner_idx].methods.push(CMember { access: 1, name: n_s.clone(), desc: d_s.clone(), attrs: vec![Attr::Code(Code { max_stack: 1, max_locals: 8, insns: vec![ret_insn.clone()], exceptions: vec![], attrs: vec![] })] });
+		if shared.is_none() {
+			models[owner_idx].methods.push(CMember { access: 1, name: n_s.clone(), desc: d_s.clone(), attrs: vec![Attr::Code(Code { max_stack: 1, max_locals: 8, insns: vec![ret_insn.clone()], exceptions: vec![], attrs: vec![] })] });
+			made.push((p.class, owner_idx, n_s.clone(), params.clone(), ret.clone()));
+		}
 		let call = |name: &str, desc: &str, owner: &str| Insn::Invoke { op: 182, owner: owner.to_string(), name: name.to_string(), desc: desc.to_string(), itf: false };
 		let mut insns = vec![Insn::Local { op: 25, index: 0 }];
 		let mut refs: BTreeSet<MRef> = BTreeSet::new();
